@@ -10,9 +10,12 @@ EXPLANATION = ("Theorems (Props/C06.v) over the Gallina tokenizer / renderer / v
                "source) and the literal-alternation scanner model of C03: for all neutral multi-word terms, all visible styles and all "
                "delimiter strings, a standalone occurrence written in an enabled style is the one and only match of the scan, it "
                "passes the boundary test and the variant table maps it to the replacement rendered in that same style; an occurrence "
-               "in a disabled style is not matched. The tail of generate_hunks (ambiguity re-resolution, separator coercion) is not "
-               "modelled: its effect on these occurrences, the style-list construction from the CLI options and the second clause "
-               "(ambiguous flat occurrences keep their first-letter case; all-upper stays all upper) are decided on the real CLI "
+               "in a disabled style is not matched. Second clause: over the model of case_constraints.rs (Model/Constraints.v, table "
+               "regenerated from the source, compared with the real filter_compatible_styles on every run) every style a text is "
+               "compatible with keeps the first letter's case and keeps an all-upper text upper; the real resolver is checked to "
+               "return a compatible style whenever one exists. The tail of generate_hunks (which heuristic, separator coercion) is "
+               "not modelled: its effect on these occurrences and the style-list construction from the CLI options are decided on "
+               "the real CLI "
                "against an independent reference renderer: every line `delimiter occurrence delimiter` for all 14 styles x the "
                "delimiter contexts x the four style-option families, compared byte for byte after apply.")
 ASSUMPTIONS = ["the ambiguity resolver and coercion tail of generate_hunks are covered by the direct oracle, not by the theorems",
@@ -34,14 +37,64 @@ def effective(opts_kind, chosen):
     return list(gen.DEFAULT_STYLES) + [s for s in chosen if s not in gen.DEFAULT_STYLES]
 
 
+def contract_stream(R, g, fails, dis, stats):
+    """(a) the constraint model (Model/Constraints.v over the translated table) against case_constraints.rs;
+       (b) the resolver's contract: whatever it picks for an ambiguous match is a style the matched text can have"""
+    hp, hlog = core.build_harness()
+    mp, mlog = core.build_model()
+    if hp is None or mp is None:
+        dis.append({"why": "harness or model driver does not build", "log": (hlog + mlog)[-800:]})
+        return
+    H, M = core.Harness([str(hp)]), core.Model([str(mp)])
+    r = g.r
+    extra = ["api", "API", "Id", "ID", "x", "X", "a1", "HTTPServer", "2FA", "oAuth", "s"]
+    n = 400 if R.tier == "quick" else 20000
+    for i in range(n):
+        a = g.words(1, 3)
+        k = r.randrange(6)
+        if k == 0:
+            t = gen.render(a, r.choice(gen.STYLES14))
+        elif k == 1:
+            t = r.choice(["_", "-", " ", ".", "__"]).join(r.choice([w, w.upper(), gen.cap(w), r.choice(extra)]) for w in a)
+        elif k == 2:
+            t = "".join(r.choice([w, w.upper(), gen.cap(w)]) for w in a)
+        elif k == 3:
+            t = r.choice(extra) + r.choice(["", "_", " "]) + r.choice(a)
+        else:
+            t = r.choice([a[0], a[0].upper(), gen.cap(a[0])])
+        real = H.ask({"op": "constraints", "s": core.hx(t)})
+        m = M.ask("compatible_styles", t.encode(), gen.STYLES14)
+        stats["constraint_cases"] += 1
+        R.case(("constraints", t), nontrivial=True)
+        if "ok" not in real or sorted(real["ok"]["compatible"]) != sorted(m if isinstance(m, list) else []):
+            dis.append({"why": "constraint model differs from case_constraints.rs", "text": t, "real": real.get("ok"), "model": m})
+        if i % 2 == 0:
+            b = g.words(1, 3, avoid=a)
+            rep = gen.render(b, r.choice(gen.STYLES14))
+            pre = r.choice(["let ", "fn ", "class ", "const ", "def ", "export ", "# ", "", "  ", "struct ", "type "])
+            line = pre + t + r.choice([" = 1;", "()", "", " {", ": int"])
+            res = H.ask({"op": "resolve", "matched": core.hx(t), "replacement": core.hx(rep),
+                         "file": core.hx(r.choice(["a.rs", "b.py", "c.js", "d.rb", "e.go", "f.txt", "g.md", ".env", "Makefile", "h.java", "i.ts"])),
+                         "content": core.hx(line + "\nfoo_bar baz_qux\nanotherThing moreStuff\n"), "line": core.hx(line), "column": len(pre)})
+            stats["resolver_cases"] += 1
+            o = res.get("ok")
+            if o is None:
+                fails.append({"why": "the ambiguity resolver panicked: " + str(res)[:200], "matched": t, "replacement": rep, "line": line})
+            elif o["some_compatible"] and not o["compatible"]:
+                fails.append({"why": f"the resolver chose {o['style']} ({o['method']}) for '{t}', a style that text cannot have: the contract the "
+                                     "first-letter / all-upper theorems rest on is broken", "matched": t, "replacement": rep, "line": line})
+    H.close()
+    M.close()
+
+
 def run(R):
     R.trusted += ["Coq 8.16.1 kernel", "translators gen_styles.py", "Python reference renderer (independent oracle)", "the real CLI (rename)"]
     proved = R.prove()
     g = gen.G(R.seed * 40503 + 6)
     r = g.r
     quick = R.tier == "quick"
-    fails = []
-    stats = {"runs": 0, "lines": 0, "by_family": {}, "expected_changed": 0, "expected_untouched": 0, "ambiguous_checked": 0, "none_left_checked": 0}
+    fails, dis = [], []
+    stats = {"constraint_cases": 0, "resolver_cases": 0, "runs": 0, "lines": 0, "by_family": {}, "expected_changed": 0, "expected_untouched": 0, "ambiguous_checked": 0, "none_left_checked": 0}
     nterms = 3 if quick else int(__import__("os").environ.get("C06_TERMS", "60"))
     for ti in range(nterms):
         a, b = g.term_pair()
@@ -136,7 +189,9 @@ def run(R):
                         vis_left = [m["content"] for m in left if m["content"] in {gen.render(a, S) for S in eff if S not in FLAT}]
                         if vis_left:
                             fails.append({"why": f"occurrences in an enabled style remain after the rename: {vis_left[:4]}", "search": search, "replace": replace, "opts": opts})
+    contract_stream(R, g, fails, dis, stats)
     R.coverage["input_distribution"] = stats
+    R.disagreements = len(dis)
     if stats["lines"] == 0 or stats["expected_changed"] == 0:
         fails.append({"why": "nothing was checked: the check is vacuous"})
     for f in fails[:3]:
@@ -146,6 +201,9 @@ def run(R):
     if not proved:
         R.violation("proof obligation of Props/C06.v no longer checks (every occurrence was rewritten as expected)",
                     {"kind": "proof_broken", **getattr(R, "broken", {})}, has_input=False)
+    elif dis:
+        R.violation("constraint model / case_constraints.rs correspondence broke (every occurrence was rewritten as expected)",
+                    {"kind": "correspondence", "first": dis[:4], "count": len(dis)}, has_input=False)
 
 
 def replay(R, obj):
